@@ -447,6 +447,12 @@ def rule_r6(ctx) -> List[R.Inst]:
     return insts
 
 
+def rule_dep(ctx):
+    """obligations inherited from shared code reached through the call graph (sa/props/deps.py)"""
+    from .deps import dep_insts
+    return dep_insts(ctx, "C02", ["reamber.sm.SMMapSet.SMMapSet.read"], skip_groups=())
+
+
 SPECS = [
     RuleSpec("C02.R1", rule_r1, 20, "A7", "symbol -> list dispatch exhaustive, typed, and inverse of the writer's table"),
     RuleSpec("C02.R2", rule_r2, 5, "A1", "per-chart header positions"),
@@ -456,6 +462,7 @@ SPECS = [
     RuleSpec("C02.R6", rule_r6, 2, "A8", "no None placeholder reaches a dereference"),
     RuleSpec("C02.R7", rule_r7, 2, "A5", "expanders number columns by the per-column buffer index"),
     RuleSpec("C02.R8", rule_r8, 6, "A3", "every chart gets its own list objects (fresh defaults per instance)"),
+    RuleSpec("C02.D", rule_dep, 1, "M0", "rules of the shared code (timing engine, list classes, stacker) that the operations of this property reach"),
 ]
 
 META = dict(
